@@ -99,6 +99,8 @@ def explore(ctx):
     n = 750 if ctx.quick() else 10000
     stats = {"parsed": 0, "changed": 0, "usage_error": 0, "lookup_error": 0, "check": 0, "declined": 0, "stdin": 0, "faults": 0}
     names = sorted(cw.COMMANDS)
+    bycmd = {c: 0 for c in names}
+    ctx.cov["index_changing_invocations_by_command"] = bycmd
     for i in range(n):
         cmdname = names[i % len(names)] if i < 3 * len(names) else (rng.choice(sorted(CCU)) if rng.random() < 0.6 else rng.choice(names))
         spec = cw.gen_spec(rng)
@@ -128,6 +130,7 @@ def explore(ctx):
             ctx.distinct_add((cmdname, tuple(args), json.dumps(spec, sort_keys=True)))
         if changed:
             stats["changed"] += 1
+            bycmd[cmdname] = bycmd.get(cmdname, 0) + 1
         check_flag = any(a in ("--check", "-c") for a in args)
         force = "--force" in args
         prompted = "Continue?" in out
